@@ -24,6 +24,7 @@ def alphabet(tier):
         assign("arr", V("b"), sub=[V("i")], loops=[["i", C(0), V("n")]]),   # loop bound in a variable
         assign("n", C(2)),
         acall(["a", "b"], "<func>g", [V("a")], kw=[["k", V("b")]]),
+        acall(["b"], "<func>g", [["tuple", [V("a"), V("n")]]]),      # tuple-valued argument (not an expression node)
         yield_(V("<state>y")),
         yield_(V("a"), comp="a", time=V("n")),
         {"op": "fail"},
@@ -209,6 +210,24 @@ def read_position_family(chk, rng):
     return out
 
 
+def fresh_family():
+    """fresh_var_name with overlapping prefixes (a name handed out earlier is itself a prefix later), reserved before
+    any statement mentions them, with and without a user variable of the same spelling: every name handed out is new."""
+    import itertools
+    pool = ["rhs", "rhs_0", "rhs_0_0", "temp_0", "<cond>"]
+    out = []
+    for n in (2, 3, 4):
+        for seq in itertools.product(pool, repeat=n):
+            if n == 4 and len(set(seq)) > 2:
+                continue
+            fr = [{"op": "fresh", "as": "$f%d" % k, "prefix": pfx} for k, pfx in enumerate(seq)]
+            use = [assign("$f%d" % k, C(k)) for k in range(n)]
+            out.append(fr + use)
+            out.append([assign("rhs_0", C(7))] + fr + use)
+            out.append(fr[:1] + use[:1] + fr[1:] + use[1:])
+    return out
+
+
 def run(chk):
     rng = random.Random(chk.seed)
     des = design_level(chk)
@@ -224,6 +243,7 @@ def run(chk):
         programs.append(gen.random_program(rng, alpha, rng.randint(6, 11)))
     fam = read_position_family(chk, rng)
     programs += rng.sample(fam, 2500) if chk.quick else fam
+    programs += fresh_family()
     cases = []
     builder_errors = 0
     for calls in programs:
